@@ -8,7 +8,11 @@
 // model advanced at the client boundary (a write counts when gorm reported success; a
 // block's snapshot is restored when gorm reported its failure). Oracle: final table
 // contents == model, read-your-writes inside blocks, error / panic identity, no open
-// transaction at the driver and no checked-out connection afterwards.
+// transaction at the driver and no checked-out connection afterwards. Statements outside any
+// block run before and after it through the same handle (same texts: a prepared-statement cache has
+// then seen them outside a transaction; the handle must stay usable); manual sequences may go on
+// using the finished handle (every such call must fail); an outermost block may finish its own
+// transaction (Transaction must then report the failure of its COMMIT).
 package c04
 
 import (
@@ -66,6 +70,9 @@ type block struct {
 	propagate bool // propagate a child's error (else swallow and go on)
 	recovers  bool // recover a child's panic and go on (the enclosing transaction must stay usable)
 	sent      *sentinel
+	// selfFinish (outermost block only): the function itself calls tx.Rollback() / tx.Commit() as its
+	// last action and returns nil; Transaction's own COMMIT then fails and that error must come back
+	selfFinish string
 }
 
 type item struct {
@@ -149,6 +156,9 @@ func (b *block) String() string {
 	}
 	out := []string{"nil", "ERR", "PANIC"}[b.outcome]
 	pr := ""
+	if b.selfFinish != "" {
+		out = "tx." + b.selfFinish + "();nil"
+	}
 	if b.propagate {
 		pr = "^"
 	}
@@ -324,6 +334,16 @@ func (w *world) runBlock(db *gorm.DB, b *block, nested bool) (err error) {
 				}
 			}
 		}
+		switch b.selfFinish {
+		case "Rollback":
+			e := tx.Rollback().Error
+			w.trace = append(w.trace, fmt.Sprintf("T%d calls tx.Rollback() itself -> %v", b.id, e))
+			return nil
+		case "Commit":
+			e := tx.Commit().Error
+			w.trace = append(w.trace, fmt.Sprintf("T%d calls tx.Commit() itself -> %v", b.id, e))
+			return nil
+		}
 		switch b.outcome {
 		case 1:
 			return b.sent
@@ -333,6 +353,17 @@ func (w *world) runBlock(db *gorm.DB, b *block, nested bool) (err error) {
 		return nil
 	})
 	settle()
+	if !nested && err == nil {
+		committed := false
+		for _, e := range w.h.Rec.Since(mark) {
+			if e.Kind == recdrv.KCommit && e.Err == nil {
+				committed = true
+			}
+		}
+		if !committed {
+			w.add("Transaction returned nil for block T%d but no COMMIT succeeded at the driver (its writes are not durable)", b.id)
+		}
+	}
 	if fnRan && fnOK && err != nil && nested {
 		w.add("nested block T%d's function returned nil but Transaction returned %v", b.id, err)
 	}
@@ -347,6 +378,7 @@ type manualStep struct {
 	kind string // write read save rollto commit rollback
 	name string
 	via  int
+	late bool // issued on the handle after the transaction was finished
 }
 
 func genManual(r *core.Rand) []manualStep {
@@ -372,6 +404,13 @@ func genManual(r *core.Rand) []manualStep {
 		}
 	}
 	steps = append(steps, manualStep{kind: core.Pick(r, []string{"commit", "commit", "rollback"})})
+	// sometimes the caller goes on using the finished transaction handle: every such call must fail
+	// and change nothing
+	if r.Chance(1, 3) {
+		for i, n := 0, r.Range(1, 2); i < n; i++ {
+			steps = append(steps, manualStep{kind: core.Pick(r, []string{"commit", "rollback", "write", "read"}), late: true})
+		}
+	}
 	return steps
 }
 
@@ -390,6 +429,26 @@ func (w *world) runManual(steps []manualStep) (finalErr error) {
 		return e
 	}
 	for _, s := range steps {
+		if s.late {
+			var e error
+			switch s.kind {
+			case "commit":
+				e = tx.Commit().Error
+			case "rollback":
+				e = tx.Rollback().Error
+			case "write":
+				w.nextID++
+				e = tx.Create(&KV{ID: w.nextID, V: "late"}).Error
+			case "read":
+				var rows []KV
+				e = tx.Find(&rows).Error
+			}
+			w.trace = append(w.trace, fmt.Sprintf("%s on the finished transaction -> %v", s.kind, e))
+			if e == nil {
+				w.add("%s on a transaction that was already finished returned no error", s.kind)
+			}
+			continue
+		}
 		switch s.kind {
 		case "write":
 			if e := w.write(derive(tx, s.via)); e != nil {
@@ -430,16 +489,16 @@ func (w *world) runManual(steps []manualStep) (finalErr error) {
 			w.trace = append(w.trace, fmt.Sprintf("commit -> %v", e))
 			if e != nil {
 				w.state = pre
-				return e
 			}
+			finalErr = e
 		case "rollback":
 			e := tx.Rollback().Error
 			w.trace = append(w.trace, fmt.Sprintf("rollback -> %v", e))
 			w.state = pre
-			return e
+			finalErr = e
 		}
 	}
-	return nil
+	return finalErr
 }
 
 func faultCalls(evs []recdrv.Event) int {
@@ -472,9 +531,54 @@ func failNth(n int, err error) (recdrv.Hook, *int64) {
 type program struct {
 	root   *block
 	manual []manualStep
+	// statements issued through the root handle outside any block, before and after it: the same
+	// statement texts as inside (so a prepared-statement cache has seen them outside a transaction),
+	// and the handle must still be usable afterwards
+	pre, post []item
+}
+
+func genOutside(r *core.Rand) []item {
+	var out []item
+	for i, n := 0, r.Intn(4); i < n; i++ {
+		out = append(out, item{kind: core.Pick(r, []string{"write", "write", "read", "update", "delete"}), via: r.Intn(len(viaNames)) * r.Intn(2)})
+	}
+	return out
+}
+
+func outsideString(items []item) string {
+	parts := make([]string, len(items))
+	for i, it := range items {
+		parts[i] = it.kind + viaNames[it.via]
+	}
+	return strings.Join(parts, ",")
+}
+
+// runOutside executes statements outside any block; an error (only possible with an injected
+// fault) leaves the model as it is.
+func (w *world) runOutside(items []item, faultFree bool) {
+	for _, it := range items {
+		db := derive(w.h.DB.Session(&gorm.Session{}), it.via)
+		var e error
+		switch it.kind {
+		case "write":
+			e = w.write(db)
+		case "read":
+			e = w.read(db)
+		default:
+			e = w.mutate(db, it.kind)
+		}
+		if e != nil && faultFree {
+			w.add("%s outside any block failed: %v", it.kind, e)
+		}
+	}
 }
 
 func (p program) String() string {
+	if len(p.pre)+len(p.post) > 0 {
+		q := p
+		q.pre, q.post = nil, nil
+		return "[" + outsideString(p.pre) + "] " + q.String() + " [" + outsideString(p.post) + "]"
+	}
 	if p.root != nil {
 		return p.root.String()
 	}
@@ -507,11 +611,20 @@ func execute(hi int, p program, failAt int) (w *world, calls int, retErr error, 
 				panicVal = r
 			}
 		}()
+		w.runOutside(p.pre, failAt == 0)
 		if p.root != nil {
 			retErr = w.runBlock(h.DB.Session(&gorm.Session{}), p.root, false)
 		} else {
 			retErr = w.runManual(p.manual)
 		}
+	}()
+	func() {
+		defer func() {
+			if r := recover(); r != nil {
+				w.add("statement after the block panicked: %v", r)
+			}
+		}()
+		w.runOutside(p.post, failAt == 0)
 	}()
 	h.Rec.SetHook(nil)
 	calls = faultCalls(h.Rec.Since(mark))
@@ -581,6 +694,13 @@ func run(c *core.Ctx) {
 	} else {
 		g := &gen{r: r}
 		p.root = g.block(r.Range(1, 4))
+		if r.Chance(1, 10) {
+			p.root.selfFinish = core.Pick(r, []string{"Rollback", "Commit"})
+			p.root.outcome = 0
+		}
+	}
+	if r.Bool() {
+		p.pre, p.post = genOutside(r), genOutside(r)
 	}
 	desc := cfgOf(hi).String() + " :: " + p.String()
 	c.Logf("PROGRAM %s", desc)
@@ -590,6 +710,14 @@ func run(c *core.Ctx) {
 	problems = append(problems, w.problems...)
 	if p.root != nil {
 		we, wp := expectedTop(p.root)
+		if p.root.selfFinish != "" && wp == nil && (we == nil || we == p.root.sent) {
+			// the function finished the transaction itself and returned nil (unless a child's error was
+			// propagated first): Transaction's own COMMIT must fail and the caller must hear about it
+			if err == nil {
+				problems = append(problems, "the block finished its transaction itself, Transaction's COMMIT cannot have succeeded, yet nil was returned")
+			}
+			we, wp, err, pv = nil, nil, nil, nil
+		}
 		switch {
 		case wp != nil:
 			if pv != interface{}(wp) {
@@ -642,7 +770,8 @@ func runFault(c *core.Ctx, hi int, p program, desc string, k int) {
 	problems := append([]string(nil), w.problems...)
 	// if the fault surfaced to the caller it must be the injected error, unchanged
 	var inj *recdrv.ErrInjected
-	if err != nil && strings.Contains(err.Error(), "injected fault") && !errors.As(err, &inj) {
+	selfFinish := p.root != nil && p.root.selfFinish != "" // the fault is then followed by the failure of Transaction's own COMMIT: a combined error
+	if err != nil && !selfFinish && strings.Contains(err.Error(), "injected fault") && !errors.As(err, &inj) {
 		problems = append(problems, "the injected error reached the caller in altered form: "+err.Error())
 	}
 	_ = pv
@@ -656,7 +785,7 @@ func runFault(c *core.Ctx, hi int, p program, desc string, k int) {
 var Engine = &core.Engine{
 	ID:    "C04",
 	Level: "fault_enumeration",
-	Rule: "seeded programs: trees of nested Transaction blocks (depth <= 4, <= 12 blocks; items write / update / delete / read / child block; outcome nil / sentinel error / panic(sentinel); parent propagates or swallows a child's error) and manual Begin/SavePoint/RollbackTo/Commit/Rollback sequences, on 8 configurations {PrepareStmt, DisableNestedTransaction, SkipDefaultTransaction}; each program runs fault-free and then once per faultable driver call (BEGIN, SAVEPOINT, statements, COMMIT; all calls for programs with <= 14 calls (quick) / 40 (thorough), 6 sampled positions beyond); " +
+	Rule: "seeded programs: trees of nested Transaction blocks (depth <= 4, <= 12 blocks; items write / update / delete / read / child block; outcome nil / sentinel error / panic(sentinel); parent propagates or swallows a child's error) and manual Begin/SavePoint/RollbackTo/Commit/Rollback sequences (one in three continuing on the finished handle), half of the programs with write/read/update/delete statements outside any block before and after it, one outermost block in ten finishing its own transaction, on 8 configurations {PrepareStmt, DisableNestedTransaction, SkipDefaultTransaction}; each program runs fault-free and then once per faultable driver call (BEGIN, SAVEPOINT, statements, COMMIT; all calls for programs with <= 14 calls (quick) / 40 (thorough), 6 sampled positions beyond); " +
 		"distinct = (config, depth, rows, error, panic, manual) resp. (config, fault position, error, panic, rows); non-trivial = every program writes and is checked against the snapshot-stack model",
 	Assumptions: []string{
 		"the model advances at the client boundary: a write counts when gorm reported success, a block's snapshot is restored when gorm reported the block's failure (so an injected fault needs no separate prediction)",
